@@ -13,16 +13,16 @@ package apk
 //@ func (a *Apk) Package(info *nfpm.Info, apk io.Writer) (err error)
 //@   requires info != nil
 //@   requires files.SpecContentsNonNil(info.Contents)
-//@   requires !flag("failed") && !flag("clockRead") && !flag("envRead")
-//@   ensures [C06] loud: implies(err == nil, !flag("failed"))
-//@   ensures [C07] no-clock: implies(!old(info.MTime.IsZero()), !flag("clockRead"))
-//@   ensures [C07] no-env: !flag("envRead")
+//@   requires !ghostFlag("failed") && !ghostFlag("clockRead") && !ghostFlag("envRead")
+//@   ensures [C06] loud: implies(err == nil, !ghostFlag("failed"))
+//@   ensures [C07] no-clock: implies(!old(info.MTime.IsZero()), !ghostFlag("clockRead"))
+//@   ensures [C07] no-env: !ghostFlag("envRead")
 //@   modifies [C11 C12] &info.Arch, &info.Contents
 //
 //@ inline func createFilesInsideTarGz(info *nfpm.Info, tw *tar.Writer, sizep *int64) (err error)
 //@   loop 0
-//@     invariant [C06] no-failure-so-far: !flag("failed")
-//@     invariant [C07] no-clock-so-far: implies(!old(info.MTime.IsZero()), !flag("clockRead"))
+//@     invariant [C06] no-failure-so-far: !ghostFlag("failed")
+//@     invariant [C07] no-clock-so-far: implies(!old(info.MTime.IsZero()), !ghostFlag("clockRead"))
 //@     invariant [C11 C12] plan-still-fresh: nfpm.SpecPlanOK(info.Contents, !old(info.MTime.IsZero()))
 //
 //@ inline func combineToApk(target io.Writer, readers ...io.Reader) (err error)
